@@ -376,7 +376,7 @@ func oracleC03(p *plan.Plan, his []plan.Rec, res *plan.Result) {
 						// an older version came back after a Delete
 						class = "deleted-key-resurrected"
 					}
-					viol(res, class, r.Op.Key+slowTag(st.slowDelete)+overlapTag(st.overlapDel && class == "deleted-key-resurrected")+windowTag(class == "deleted-key-resurrected" && st.inWindow["="+r.Val]), "%s but the key may only hold %v; writes: %s", descRecT(r), keysOf(st.vals), writesOf(his, r.Op.Key))
+					viol(res, class, r.Op.Key+slowTag(st.slowDelete)+overlapTag((st.overlapDel && class == "deleted-key-resurrected") || (class == "stale-read-during-handover" && pendingEvents >= 2))+windowTag(class == "deleted-key-resurrected" && st.inWindow["="+r.Val]), "%s but the key may only hold %v; writes: %s", descRecT(r), keysOf(st.vals), writesOf(his, r.Op.Key))
 				}
 			case r.Err == plan.ENotFound:
 				if !st.vals[""] {
